@@ -174,11 +174,17 @@ def make_device(case, ts):
         ns[f"dv{i}"] = DeviceVar(fmt, write=l["mode"] == "write")
     ns["sv"] = TerminalVar()
 
+    twice = case["fseed"] % 4 == 1
+
     def program(self):
         for i, l in enumerate(links):
             if l["mode"] == "read":
                 setattr(self, f"dv{i}", tv(self, i))
             else:
+                if twice:
+                    # a default first, then the value: the same variable is
+                    # written at two places of one program
+                    settv(self, i, 0)
                 settv(self, i, getattr(self, f"dv{i}"))
 
     def update(self):
@@ -268,6 +274,8 @@ def check_case(case, res):
     rng = random.Random(case["fseed"])
     links = case["links"]
     shared = case["fseed"] % 3 == 0
+    if case["fseed"] % 4 == 1:
+        res.count("cases_whose_program_writes_each_output_twice")
     with kern.session() as sess:
         # ---- fast path -----------------------------------------------
         ecf = ecat.OfflineFastEtherCat(sess)
